@@ -636,4 +636,223 @@ theorem cat_setData_other (ms : List Member) (i : Nat) (b' nm : Bytes) (x : Memb
       simp only [cat, List.filter_cons] at this ⊢
       split <;> simp_all
 
+/-! ### header block: checksum arithmetic -/
+
+theorem slice_set_outside (lo hi : Nat) (l : Bytes) (i k v : Nat) (h : ¬ (lo ≤ i + k ∧ i + k < hi)) :
+    slice lo hi i (l.set k v) = slice lo hi i l := by
+  induction l generalizing i k with
+  | nil => simp
+  | cons b r ih =>
+    cases k with
+    | zero =>
+      have h' : ¬ (lo ≤ i ∧ i < hi) := by simpa using h
+      simp [slice, h']
+    | succ k' =>
+      have := ih (i + 1) k' (by intro hh; apply h; omega)
+      simp only [List.set_cons_succ, slice, this]
+
+theorem sumU_set_inside (l : Bytes) (i k v : Nat) (h : 148 ≤ i + k ∧ i + k < 156) :
+    sumU i (l.set k v) = sumU i l := by
+  induction l generalizing i k with
+  | nil => simp
+  | cons b r ih =>
+    cases k with
+    | zero =>
+      have h' : 148 ≤ i ∧ i < 156 := by simpa using h
+      simp [sumU, h']
+    | succ k' =>
+      have := ih (i + 1) k' (by omega)
+      simp only [List.set_cons_succ, sumU, this]
+
+theorem sumS_set_inside (l : Bytes) (i k v : Nat) (h : 148 ≤ i + k ∧ i + k < 156) :
+    sumS i (l.set k v) = sumS i l := by
+  induction l generalizing i k with
+  | nil => simp
+  | cons b r ih =>
+    cases k with
+    | zero =>
+      have h' : 148 ≤ i ∧ i < 156 := by simpa using h
+      simp [sumS, h']
+    | succ k' =>
+      have := ih (i + 1) k' (by omega)
+      simp only [List.set_cons_succ, sumS, this]
+
+theorem sumU_set_outside (l : Bytes) (i k v x : Nat) (hx : l[k]? = some x)
+    (h : ¬ (148 ≤ i + k ∧ i + k < 156)) : sumU i (l.set k v) + x = sumU i l + v := by
+  induction l generalizing i k with
+  | nil => simp at hx
+  | cons b r ih =>
+    cases k with
+    | zero =>
+      have h' : ¬ (148 ≤ i ∧ i < 156) := by simpa using h
+      simp at hx; subst hx
+      simp [sumU, h']; omega
+    | succ k' =>
+      have := ih (i + 1) k' (by simpa using hx) (by intro hh; apply h; omega)
+      simp only [List.set_cons_succ, sumU]; omega
+
+theorem sumS_set_outside (l : Bytes) (i k v x : Nat) (hx : l[k]? = some x)
+    (h : ¬ (148 ≤ i + k ∧ i + k < 156)) : sumS i (l.set k v) + sbyte x = sumS i l + sbyte v := by
+  induction l generalizing i k with
+  | nil => simp at hx
+  | cons b r ih =>
+    cases k with
+    | zero =>
+      have h' : ¬ (148 ≤ i ∧ i < 156) := by simpa using h
+      simp at hx; subst hx
+      simp [sumS, h']; omega
+    | succ k' =>
+      have := ih (i + 1) k' (by simpa using hx) (by intro hh; apply h; omega)
+      simp only [List.set_cons_succ, sumS]; omega
+
+theorem sumS_ascii (l : Bytes) (i : Nat) (h : ∀ b ∈ l, b < 128) : sumS i l = (sumU i l : Int) := by
+  induction l generalizing i with
+  | nil => simp [sumS, sumU]
+  | cons b r ih =>
+    have hb : b < 128 := h b (List.mem_cons_self ..)
+    have := ih (i + 1) (fun x hx => h x (List.mem_cons_of_mem _ hx))
+    simp only [sumS, sumU, this, sbyte, hb, if_true]
+    split <;> simp
+
+/-- the stored value of a block that passes the gate, for an ASCII block, is the unsigned sum -/
+theorem checksumOK_ascii (blk : Bytes) (hascii : ∀ b ∈ blk, b < 128) :
+    checksumOK blk = true ↔ parseOctal (chkField blk) = some (sumU 0 blk) := by
+  unfold checksumOK
+  have hs := sumS_ascii blk 0 hascii
+  cases hp : parseOctal (chkField blk) with
+  | none => simp
+  | some w =>
+    simp only [hs, Bool.or_eq_true, decide_eq_true_eq, Option.some.injEq]
+    constructor
+    · rintro (h | h)
+      · exact h
+      · exact Int.ofNat.inj h
+    · intro h; left; exact h
+
+/-- a single-byte change outside the checksum field of an ASCII block that passed the gate makes
+    both sums differ from the stored value -/
+theorem checksum_detects_change (blk : Bytes) (p v x : Nat) (hx : blk[p]? = some x)
+    (hascii : ∀ b ∈ blk, b < 128) (hok : checksumOK blk = true)
+    (hout : ¬ (148 ≤ p ∧ p < 156)) (hv : v ≠ x) (hv256 : v < 256) :
+    checksumOK (blk.set p v) = false := by
+  have hw := (checksumOK_ascii blk hascii).mp hok
+  have hf : chkField (blk.set p v) = chkField blk := by
+    unfold chkField; exact slice_set_outside 148 156 blk 0 p v (by simpa using hout)
+  have hU := sumU_set_outside blk 0 p v x hx (by simpa using hout)
+  have hS := sumS_set_outside blk 0 p v x hx (by simpa using hout)
+  have hx128 : x < 128 := hascii x (List.mem_of_getElem? hx)
+  have hSa := sumS_ascii blk 0 hascii
+  unfold checksumOK
+  rw [hf, hw]
+  simp only [Bool.or_eq_false_iff, decide_eq_false_iff_not]
+  refine ⟨by omega, ?_⟩
+  intro h
+  have hsx : sbyte x = (x : Int) := by simp [sbyte, hx128]
+  rw [hsx, hSa] at hS
+  unfold sbyte at hS
+  split at hS <;> omega
+
+/-- a change inside the checksum field leaves both sums alone: the block passes the gate exactly
+    when the changed field still parses to the value stored before -/
+theorem checksum_field_change (blk : Bytes) (p v : Nat) (hascii : ∀ b ∈ blk, b < 128)
+    (hok : checksumOK blk = true) (hin : 148 ≤ p ∧ p < 156) :
+    checksumOK (blk.set p v) = true ↔ parseOctal (chkField (blk.set p v)) = parseOctal (chkField blk) := by
+  have hw := (checksumOK_ascii blk hascii).mp hok
+  have hU := sumU_set_inside blk 0 p v (by simpa using hin)
+  have hS := sumS_set_inside blk 0 p v (by simpa using hin)
+  have hSa := sumS_ascii blk 0 hascii
+  unfold checksumOK
+  rw [hU, hS, hSa, hw]
+  cases hp : parseOctal (chkField (blk.set p v)) with
+  | none => simp
+  | some w =>
+    simp only [Bool.or_eq_true, decide_eq_true_eq, Option.some.injEq]
+    constructor
+    · rintro (h | h)
+      · exact h
+      · exact Int.ofNat.inj h
+    · intro h; left; exact h
+
+/-- every view of the header-aware single-byte model has the same three shapes -/
+theorem flipFromH_shape (val off : Nat) (hs : List Bytes) (ms : List (Bytes × Bytes)) (pos : Nat) :
+    ∀ v ∈ flipFromH val off hs ms pos,
+      v.ending = .err ∨ v = ⟨ms.map full, .eof⟩ ∨
+      ∃ i k, i < ms.length ∧ v = ⟨(setByte ms i k val).map full, .eof⟩ := by
+  induction ms generalizing off hs with
+  | nil =>
+    intro v hv
+    have : flipFromH val off hs [] pos = flipFrom val off [] pos := by
+      cases hs <;> simp [flipFromH]
+    rw [this] at hv
+    exact flipFrom_shape val off [] pos v hv
+  | cons x ms ih =>
+    intro v hv
+    cases hs with
+    | nil =>
+      have : flipFromH val off [] (x :: ms) pos = flipFrom val off (x :: ms) pos := by simp [flipFromH]
+      rw [this] at hv
+      exact flipFrom_shape val off (x :: ms) pos v hv
+    | cons h hs =>
+      unfold flipFromH at hv
+      split at hv
+      · split at hv
+        · simp at hv; subst hv; right; left; rfl
+        · simp at hv; subst hv; left; rfl
+      · split at hv
+        · exact flipFrom_shape val off (x :: ms) pos v hv
+        · simp only [List.mem_map] at hv
+          obtain ⟨w, hw, rfl⟩ := hv
+          rcases ih _ hs w hw with h | h | ⟨i, k, hi, h⟩
+          · left; simpa [consM] using h
+          · right; left; subst h; simp [consM]
+          · right; right
+            refine ⟨i + 1, k, by simpa using hi, ?_⟩
+            subst h
+            simp [consM, setByte_cons_succ]
+
+/-- a changed byte in the header of member `j`: decided by the checksum gate on that block -/
+theorem flipFromH_header (val i off : Nat) (hs : List Bytes) (ms : List (Bytes × Bytes)) (pos : Nat)
+    (r : Region) (j : Nat) (hlen : hs.length = ms.length)
+    (hr : r ∈ layoutFrom i off (sizesOf ms)) (hc : r.contains pos = true) (hcls : r.cls = .header j) :
+    i ≤ j ∧ ∃ h, hs[j - i]? = some h ∧
+      flipFromH val off hs ms pos =
+        if checksumOK (h.set (pos - r.start) val) then [⟨ms.map full, .eof⟩]
+        else [⟨(ms.take (j - i)).map full, .err⟩] := by
+  induction ms generalizing i off hs with
+  | nil =>
+    simp [sizesOf, layoutFrom] at hr
+    subst hr; cases hcls
+  | cons x ms ih =>
+    cases hs with
+    | nil => simp at hlen
+    | cons h hs =>
+      have hsz : sizesOf (x :: ms) = x.2.length :: sizesOf ms := rfl
+      rw [hsz, layoutFrom_cons] at hr
+      have hcp := (contains_iff r pos).mp hc
+      simp only [List.mem_cons] at hr
+      rcases hr with rfl | rfl | rfl | hr
+      · simp only at hcp
+        simp only [Cls.header.injEq] at hcls
+        subst hcls
+        refine ⟨Nat.le_refl _, h, by simp, ?_⟩
+        unfold flipFromH
+        have c1 : pos < off + 512 := by omega
+        simp [c1]
+      · cases hcls
+      · cases hcls
+      · have hb := (contig_bounds (layoutFrom_contig (i + 1) (off + slot x.2.length) (sizesOf ms))).2 r hr
+        have hsl : slot x.2.length = 512 + x.2.length + padLen x.2.length := rfl
+        obtain ⟨hij, h', hh', hf⟩ := ih (i + 1) (off + slot x.2.length) hs (by simpa using hlen) hr
+        refine ⟨by omega, h', ?_, ?_⟩
+        · have : j - i = (j - (i + 1)) + 1 := by omega
+          rw [this]; simpa using hh'
+        · unfold flipFromH
+          have c1 : ¬ pos < off + 512 := by omega
+          have c3 : ¬ pos < off + slot x.2.length := by omega
+          simp only [c1, c3, if_false]
+          rw [hf]
+          have : j - i = (j - (i + 1)) + 1 := by omega
+          rw [this]
+          split <;> simp [consM]
+
 end CV.Tar
